@@ -206,6 +206,116 @@ fn body(c: &Case, ch: &Chooser) -> Outcome {
     o
 }
 
+// ---------------------------------------------------------------------------------------------
+// the same question through the real transport server (Server::builder().add_service)
+
+#[derive(Clone, Debug)]
+struct NetCase {
+    order: Vec<usize>,
+    chop: usize,
+}
+
+macro_rules! router_add {
+    ($router:expr, $svc:expr, $log:expr) => {{
+        let h = H { svc: $svc, log: $log.clone() };
+        match $svc {
+            0 => $router.add_service(route_a_Sv::sv_server::SvServer::new(h)),
+            1 => $router.add_service(route_a_SvX::sv_x_server::SvXServer::new(h)),
+            2 => $router.add_service(route_a_sv::sv_server::svServer::new(h)),
+            3 => $router.add_service(route__Sv::sv_server::SvServer::new(h)),
+            _ => $router.add_service(route_x_a_Sv::sv_server::SvServer::new(h)),
+        }
+    }};
+}
+
+fn net_body(c: &NetCase, _ch: &Chooser) -> Outcome {
+    use crate::env::vnet::{self, ConnectMode};
+    use http_body_util::BodyExt;
+    let rt = vnet::runtime(31);
+    let c2 = c.clone();
+    let ps = paths();
+    let results: Vec<(String, Vec<(usize, usize)>, Option<String>, String)> = rt.block_on(async move {
+        let c = c2;
+        let log: Log = Arc::new(Mutex::new(vec![]));
+        let (st, rx) = vnet::connector_state(ConnectMode::Succeed, false, c.chop);
+        let mut router = {
+            let first = c.order[0];
+            let mut b = tonic::transport::Server::builder();
+            let h = H { svc: first, log: log.clone() };
+            match first {
+                0 => b.add_service(route_a_Sv::sv_server::SvServer::new(h)),
+                1 => b.add_service(route_a_SvX::sv_x_server::SvXServer::new(h)),
+                2 => b.add_service(route_a_sv::sv_server::svServer::new(h)),
+                3 => b.add_service(route__Sv::sv_server::SvServer::new(h)),
+                _ => b.add_service(route_x_a_Sv::sv_server::SvServer::new(h)),
+            }
+        };
+        for s in &c.order[1..] {
+            router = router_add!(router, *s, log);
+        }
+        tokio::spawn(async move {
+            let _ = router.serve_with_incoming(vnet::incoming(rx)).await;
+        });
+        use tower_service::Service;
+        let mut conn = vnet::connector(st);
+        let io = conn.call(http::Uri::from_static("http://c10.test:1")).await.unwrap_or_else(|e| crate::explore::machinery(format!("pipe: {e}")));
+        let (mut send, connection) = hyper::client::conn::http2::handshake(hyper_util::rt::TokioExecutor::new(), io).await.unwrap_or_else(|e| crate::explore::machinery(format!("handshake: {e}")));
+        tokio::spawn(async move {
+            let _ = connection.await;
+        });
+        let mut out = vec![];
+        for p in ps {
+            let Ok(uri) = format!("http://c10.test:1{p}").parse::<http::Uri>() else { continue };
+            let before = log.lock().unwrap().len();
+            let req = http::Request::builder()
+                .method("POST")
+                .uri(uri)
+                .header("content-type", "application/grpc")
+                .header("te", "trailers")
+                .body(http_body_util::Full::new(bytes::Bytes::from(wire::encode_frame(0, &[]))))
+                .unwrap();
+            let r = vnet::within(std::time::Duration::from_secs(600), async {
+                let resp = send.send_request(req).await.map_err(|e| e.to_string())?;
+                let (parts, body) = resp.into_parts();
+                let col = body.collect().await.map_err(|e| e.to_string())?;
+                let status = parts.headers.get("grpc-status").cloned().or_else(|| col.trailers().and_then(|t| t.get("grpc-status").cloned()));
+                Ok::<_, String>((parts.status, status.map(|v| String::from_utf8_lossy(v.as_bytes()).to_string())))
+            })
+            .await;
+            let ran: Vec<(usize, usize)> = log.lock().unwrap()[before..].to_vec();
+            match r {
+                None => out.push((p, ran, None, "hang".to_string())),
+                Some(Err(e)) => out.push((p, ran, None, format!("error {e}"))),
+                Some(Ok((http, st))) => out.push((p, ran, st, http.to_string())),
+            }
+        }
+        out
+    });
+    drop(rt);
+    let mut o = Outcome::new(format!("{:?}", results.iter().map(|(p, ran, st, http)| format!("{p}=>{ran:?}/{st:?}/{http}")).collect::<Vec<_>>()));
+    o.nontrivial = true;
+    for (p, ran, st, http) in &results {
+        match reference(&c.order, p) {
+            Some(w) => {
+                if ran != &vec![w] {
+                    o.violate("net-exact-path-not-dispatched", format!("path {p} names {}.{} but handlers run: {ran:?} ({http})", SERVICES[w.0], METHODS[w.1]));
+                } else if st.as_deref() != Some("0") {
+                    o.violate("net-exact-path-status", format!("path {p}: handler ran but grpc-status {st:?}"));
+                }
+            }
+            None => {
+                if !ran.is_empty() {
+                    o.violate("net-inexact-path-dispatched", format!("path {p} is not exactly /S/M of a registered service but handler {ran:?} ran"));
+                }
+                if st.as_deref() != Some("12") {
+                    o.violate("net-unknown-path-not-unimplemented", format!("path {p} answered with http {http} grpc-status {st:?}"));
+                }
+            }
+        }
+    }
+    o
+}
+
 fn registrations(tier: Tier) -> Vec<Vec<usize>> {
     let mut out = vec![];
     for mask in 1u32..32 {
@@ -265,6 +375,28 @@ pub fn property(tier: Tier) -> Property {
         body,
     )
     .mins(1000, 8, 500);
+    let mut ncases = vec![];
+    for a in 0..5usize {
+        for b in 0..5usize {
+            if a != b {
+                ncases.push(NetCase { order: vec![a, b], chop: (a + b) % 3 * 2 % 5 });
+            }
+        }
+        ncases.push(NetCase { order: vec![a], chop: 0 });
+    }
+    if tier == Tier::Thorough {
+        ncases.push(NetCase { order: vec![0, 1, 2, 3, 4], chop: 2 });
+        ncases.push(NetCase { order: vec![4, 3, 2, 1, 0], chop: 3 });
+    }
+    let net = Section::new(
+        "server-transport",
+        Config { hang_secs: 120, ..Default::default() },
+        "cases: every ordered pair (and every single one; thorough also all five in both orders) of the fixture services registered through Server::builder().add_service(..) and served by the real transport server over an in-memory pipe in virtual time; a bare hyper HTTP/2 client sends every path of the mutation menu on one connection (one execution = ~1000 requests); same RefRouter oracle. All cases count as non-trivial.",
+        ncases,
+        |c: &NetCase| format!("order={:?} chop={}", c.order.iter().map(|s| SERVICES[*s]).collect::<Vec<_>>(), c.chop),
+        net_body,
+    )
+    .mins(20, 5, 20);
     Property {
         id: "C10",
         level: "exploration",
@@ -273,7 +405,7 @@ pub fn property(tier: Tier) -> Property {
             "request targets the http crate refuses to parse (e.g. no leading slash) cannot be sent and are outside the alphabet".into(),
             "a query string does not change the path component".into(),
         ],
-        sections: vec![sec],
+        sections: vec![sec, net],
         extra: Default::default(),
     }
 }
